@@ -47,6 +47,9 @@ def replay_and_validate(run, behs, driver, driver_args, trace_module, trace_cfg,
             stats = json.loads(out.strip().splitlines()[-1])
         except Exception:
             stats = {}
+        for k in ("ops", "cuts"):
+            if k in stats:
+                run.cov["real_" + k] = run.cov.get("real_" + k, 0) + stats[k]
         # One pass: with deviations listed as known the trace is validated against ACTUAL = IDEAL + those
         # deviations. The specifications record in `dev` every deviation that changed an outcome, so
         # "accepted with dev = {}" is exactly "accepted by IDEAL" (the specs are deterministic given the
